@@ -98,7 +98,10 @@ def make_case(rng, i, tier):
     if i % 18 == 4:
         perm = list(range(k))    # ... and sometimes merged exactly in chain order
     prefixes = [[op for op in random_prefix(rng, n=(1, 2)) if op["op"] != "merge_empty"] if (i % 4 == 3 and rng.random() < 0.6) else [] for _ in seqs]
-    return {"seqs": seqs, "perm": perm, "into_empty": rng.random() < 0.5, "prefixes": prefixes}
+    case = {"seqs": seqs, "perm": perm, "into_empty": rng.random() < 0.5, "prefixes": prefixes}
+    if i % 7 == 2:
+        case["argument_form"] = ["tuple", "iter", "generator"][(i // 7) % 3]
+    return case
 
 
 def run(case, ctx):
@@ -114,6 +117,18 @@ def run(case, ctx):
         m = seqs[0].copy()
         m.merge([s.copy() for s in seqs[1:]])
     got = obs(m)
+    if case.get("argument_form"):
+        # "merging any sequences": the same operands handed over as a tuple / one-shot iterator / generator must give what the
+        # list form gave (the contract judged that one)
+        af = case["argument_form"]
+        ops = [s.copy() for s in (seqs if case["into_empty"] else seqs[1:])]
+        m3 = Sequence() if case["into_empty"] else seqs[0].copy()
+        m3.merge(tuple(ops) if af == "tuple" else iter(ops) if af == "iter" else (x for x in ops))
+        LOG.n("c15.argument_form." + af)
+        g3 = obs(m3)
+        if g3["events"] != got["events"] or g3["dur"] != got["dur"]:
+            fails.append(fail("argument_form_changes_result", {"form": af, "only_list_form": [e for e in got["events"] if e not in g3["events"]][:3],
+                                                               "only_this_form": [e for e in g3["events"] if e not in got["events"]][:3]}))
     order = case["perm"]
     m2 = seqs[order[0]].copy()
     m2.merge([seqs[j].copy() for j in order[1:]])
